@@ -3,9 +3,14 @@ package main
 import (
 	"encoding/json"
 	"fmt"
+	"go/ast"
+	"go/parser"
+	"go/token"
 	"math/rand"
 	"net"
 	"os"
+	"path/filepath"
+	"strconv"
 	"strings"
 
 	"github.com/zmap/zlint/v3/lint"
@@ -37,6 +42,57 @@ func cmdIP(args []string) {
 		panic("no plan")
 	}
 	addrs := plan.Addrs
+	// every network the implementation's own table names (string literals of util/ip.go that read as CIDR): first, last,
+	// just outside - so that blocks the property does not list are probed at their edges too
+	ipGroups := func(ip net.IP) []int {
+		if v4 := ip.To4(); v4 != nil {
+			return []int{int(v4[0])<<8 | int(v4[1]), int(v4[2])<<8 | int(v4[3])}
+		}
+		g := make([]int, 8)
+		for i := range g {
+			g[i] = int(ip[2*i])<<8 | int(ip[2*i+1])
+		}
+		return g
+	}
+	tableNets := 0
+	if f, err := parser.ParseFile(token.NewFileSet(), filepath.Join(corpus.Root(), "v3", "util", "ip.go"), nil, 0); err == nil {
+		ast.Inspect(f, func(n ast.Node) bool {
+			bl, ok := n.(*ast.BasicLit)
+			if !ok || bl.Kind != token.STRING {
+				return true
+			}
+			sv, err := strconv.Unquote(bl.Value)
+			if err != nil {
+				return true
+			}
+			if _, nw, err := net.ParseCIDR(sv); err == nil {
+				tableNets++
+				first := append(net.IP{}, nw.IP...)
+				last := append(net.IP{}, nw.IP...)
+				for i := range last {
+					last[i] |= ^nw.Mask[i]
+				}
+				before, after := append(net.IP{}, first...), append(net.IP{}, last...)
+				for i := len(before) - 1; i >= 0; i-- {
+					before[i]--
+					if before[i] != 0xff {
+						break
+					}
+				}
+				for i := len(after) - 1; i >= 0; i-- {
+					after[i]++
+					if after[i] != 0 {
+						break
+					}
+				}
+				for _, a := range []net.IP{first, last, before, after} {
+					addrs = append(addrs, ipGroups(a))
+				}
+			}
+			return true
+		})
+	}
+	nPlanned := len(addrs)
 	nrand := 300
 	if tier == "thorough" {
 		nrand = 20000
@@ -150,7 +206,7 @@ func cmdIP(args []string) {
 		nl++
 	}
 	for i, g := range addrs {
-		if i >= len(plan.Addrs)+200 {
+		if i >= nPlanned+200 {
 			break
 		}
 		ip := groupsToIP(g)
@@ -175,7 +231,10 @@ func cmdIP(args []string) {
 		}
 		if ncT != nil {
 			total := 16 * len(g)
-			for _, p := range []int{total, total - 1, total / 2, 8, 7, 5, 4, 1, 0, rng.Intn(total + 1)} {
+			for _, p := range []int{total, total - 1, total / 2, 8, 7, 5, 4, 1, 0, rng.Intn(total + 1), 12, 16, 24, 32, 48, 56, 64, 96, 104, 112, 120} {
+				if p > total {
+					continue
+				}
 				m := maskOf(p, total)
 				fc := ncT.fc.Clone()
 				fc.SetPermittedIPs([][]byte{append(append([]byte{}, ip.Mask(m)...), m...)})
@@ -191,6 +250,6 @@ func cmdIP(args []string) {
 			missing = append(missing, name)
 		}
 	}
-	ev.WriteJSON(out("summary.json"), ev.M{"events": n, "addresses": len(addrs), "plan_addresses": len(plan.Addrs), "chain_flips": flips, "lint_runs": nl,
+	ev.WriteJSON(out("summary.json"), ev.M{"events": n, "addresses": len(addrs), "plan_addresses": len(plan.Addrs), "table_networks": tableNets, "chain_flips": flips, "lint_runs": nl,
 		"templates_missing": strings.Join(missing, ","), "sample": ev.M{"ev": "Chain", "g": addrs[3], "note": fmt.Sprint(groupsToIP(addrs[3]))}})
 }
